@@ -685,6 +685,12 @@ class PGPUID(ParentRef):
         """
         if self.parent is not None:
             for sig in reversed(self._signatures):
+                # a self-signature is a certification (0x10 - 0x13) by the key itself; its revocations and
+                # attestations on this identity are made by the same key but carry no preferences, flags or expiry
+                if sig.type not in {SignatureType.Generic_Cert, SignatureType.Persona_Cert,
+                                    SignatureType.Casual_Cert, SignatureType.Positive_Cert}:
+                    continue
+
                 if sig.signer_fingerprint:
                     if self.parent.fingerprint == sig.signer_fingerprint:
                         return sig
